@@ -169,7 +169,7 @@ def run_one(h, workdir, mem_gb, timeout, trace=False):
             res["unwindset_error"] = repr(e)
     if trace:
         cmd += ["--trace"]
-    cmd += [out, "--json-ui"]
+    cmd += [out, "--json-ui", "--verbosity", "8"]
     jpath = out + ".json"
     res["cbmc_cmd"] = " ".join(cmd)
     try:
